@@ -9,7 +9,7 @@ SPEC = {
             "Corpus: every test_data/*.tx and the transactions of every test_data/*.block and of every 500th (thorough: 10th) block of the immutable-db chunks (quick: first 2 per block; thorough: all), each "
             "post-Byron one under BOTH validity flags (flag byte flipped in the CBOR); generated: Alonzo/Babbage/Conway bodies with 0..8 inputs "
             "drawn from a 1..7-hash alphabet (shared prefixes, boundary indices) so duplicates are frequent, 0..4 collateral inputs with duplicates, "
-            "with/without collateral return, definite/indefinite arrays, tag-258 sets. distinct = sha1 of op text; non-trivial = post-Byron tx "
+            "with/without collateral return, definite/indefinite arrays, tag-258 sets; single-site encoding mutants (def<->indef incl. empty containers, head widths incl. 8-byte) of small corpus transactions that pallas still decodes. distinct = sha1 of op text; non-trivial = post-Byron tx "
             "that is flagged invalid or has a duplicated input",
     "trusted_base": ["Model/Utxo.lean is a hand transcription of MultiEraTx::{consumes,produces,produces_at,inputs_sorted_set} "
                      "(HashSet::insert filter as a list, enumerate, stable sort modelled by insertion sort + theorem sorted_set_unique, Vec::dedup_by_key); "
